@@ -15,20 +15,23 @@ UNIT = {
     'types': {'StringRef': 'strref', 'FileInfo': 'struct FileInfo', 'basic::FileInfo': 'struct FileInfo', 'core::ValueType': 'vbytes', 'ValueType': 'vbytes', 'core::KeyType': 'vstr', 'KeyType': 'vstr',
               'std::string': 'vstr', 'string': 'vstr', 'basic_string<char>': 'vstr', 'CommandSignature': 'struct CommandSignature', 'basic::CommandSignature': 'struct CommandSignature',
               'BuildValue': 'struct BuildValue', 'FileTimestamp': 'struct FileTimestamp', 'basic::FileTimestamp': 'struct FileTimestamp', 'TaskInterface': 'struct TaskInterface', 'core::TaskInterface': 'struct TaskInterface'},
-    'type_patterns': [(r'vector<(unsigned char|uint8_t)(, allocator<(unsigned char|uint8_t)>)?\s*>', 'vbytes')],
+    'type_patterns': [(r'(std::)?atomic<unsigned( int)?>', 'unsigned'), (r'(std::)?__atomic_base<unsigned( int)?>', 'unsigned'), (r'vector<(unsigned char|uint8_t)(, allocator<(unsigned char|uint8_t)>)?\s*>', 'vbytes')],
     'by_value': ['strref', 'struct FileInfo', 'struct CommandSignature', 'struct BuildValue', 'struct FileTimestamp', 'struct TaskInterface'], 'by_pointer': ['vstr', 'vbytes'],
     'predefined_structs': ['FileInfo', 'CommandSignature', 'BuildValue', 'FileTimestamp', 'TaskInterface'],
+    'struct_extra': {'Command': '  _Bool g_generator; const void *g_rule;\n', 'Manifest': '  const void *g_phony;\n'},
     'ref_fields': ['NinjaCommandTask::context'],
-    'no_translate': ['fromValue', 'getCommandHash', 'getOutputInfo', 'getNthOutputInfo', 'reportMissingInput', 'getInputs'],
+    'no_translate': ['computeCommandResult', 'canUpdateIfNewerWithResult', 'complete', 'toValue', 'hasGeneratorFlag', 'getRule', 'getPhonyRule', 'fromValue', 'getCommandHash', 'getOutputInfo', 'getNthOutputInfo', 'reportMissingInput', 'getInputs'],
     'calls': {
         'fn:fromValue': 'verif_from_value',
         'm:@struct BuildValue::getCommandHash': '($o->commandHash)', 'm:@struct BuildValue::getOutputInfo': 'verif_output_info0', 'm:@struct BuildValue::getNthOutputInfo': 'verif_nth_info',
         'm:@struct FileInfo::isMissing': '($o->missing != 0)',
         'o:>:@struct FileTimestamp': '($o->t > $0.t)', 'o:<:@struct FileTimestamp': '($o->t < $0.t)', 'o:<=:@struct FileTimestamp': '($o->t <= $0.t)', 'o:>=:@struct FileTimestamp': '($o->t >= $0.t)',
         'o:=:@struct FileTimestamp': '(*$o = $0)', 'o:=:@struct CommandSignature': '(*$o = $0)',
-        'm:BuildContext::reportMissingInput': _report,
+        'm:BuildContext::reportMissingInput': _report, 'm:Command::hasGeneratorFlag': '($o->g_generator != 0)', 'm:Command::getRule': '($o->g_rule)', 'm:Manifest::getPhonyRule': '($o->g_phony)',
+        'm:TaskInterface::complete': 'ti_complete', 'm:@struct TaskInterface::complete': 'ti_complete', 'm:@struct BuildValue::toValue': 'bv_to_value', 'm:BuildValue::toValue': 'bv_to_value',
+        'o:!=:@struct CommandSignature': '($o->value != $0.value)', 'o:==:@struct CommandSignature': '($o->value == $0.value)',
     },
-    'call_patterns': [(r'c:BuildValue\(.*BuildValue &&\)', '$0'), (r'c:BuildValue/1', '$0')],
+    'call_patterns': [(r'o:\+\+:__atomic_base<unsigned( int)?>', '(++(*$o))'), (r'o:\+\+:(std::)?atomic<unsigned( int)?>', '(++(*$o))'), (r'c:BuildValue\(.*BuildValue &&\)', '$0'), (r'c:BuildValue/1', '$0')],
     'prelude': '#include "models/base.h"\n#include "models/vec.h"\nstruct TaskInterface { char _e; };\n#include "models/ninja_task.h"\n',
     'functions': {
         'NinjaCommandTask::provideValue': {
